@@ -95,6 +95,7 @@ def norm_result(case, res):
         "traces": 0,
         "note": None,
         "nt_keys": None,
+        "metric": None,
     }
     out.update(res or {})
     if out["key"] is None:
@@ -307,6 +308,7 @@ def finish(mod, tier, seed, src, cases, results, t0, exhaustive=True):
         "src": src,
         "slowest_case_s": round(max([r["t"] for r in results] or [0.0]), 2),
         "cpu_s_total": round(sum(r["t"] for r in results), 1),
+        "max_numeric_defect_on_passing_cases": max([float(r["metric"]) for r in results if r.get("metric") is not None and r["status"] == "ok"] or [0.0]),
         "slowest_cases": [{"t": round(results[i]["t"], 1), "case": cases[i]} for i in sorted(range(len(cases)), key=lambda i: -results[i]["t"])[:3]],
     }
     if mod.LEVEL == "model_checking":
